@@ -36,6 +36,10 @@ for i in range(1, 21):
     mod = importlib.import_module("props." + pid)
     rng = random.Random(0)
     bodies = list(mod.corpus()) + list(mod.generate(rng, tier))
+    frac = getattr(mod, "VIA_LOGGER", 0)   # as in ./check: a share of the histories once more through Logger / LoggerHandle
+    if frac:
+        ok = [b for b in bodies if b.startswith("flw ") and not any(t.startswith(("P:", "KI:")) or t == "CR" for t in b.split(" "))]
+        bodies += ["flwl" + b[3:] for b in ok if rng.random() < frac]
     cases = ["k%d %s" % (n, b) for n, b in enumerate(bodies)]
     total += len(cases)
     work = os.path.join(SCR, "work_" + pid)
